@@ -22,6 +22,15 @@ def keys_of(t):
     return t if seen else None
 
 
+def keys_order_free(t):
+    """does the key-list expression forget the mapping's insertion order (sorted(...) / set(...))?"""
+    while is_call(t, ("builtin:sorted", "builtin:list", "builtin:set", "builtin:tuple", "builtin:frozenset")) and len(t[2]) == 1:
+        if t[1] in ("builtin:sorted", "builtin:set", "builtin:frozenset"):
+            return True
+        t = t[2][0]
+    return False
+
+
 def type_name_of(w, t):
     """name of a type object term, or None"""
     if isinstance(t, tuple) and t and t[0] == "global":
@@ -111,7 +120,11 @@ def _membership(w, e, s, l, r, positive, outs):
             a.add(("keysin", d, alts) if len(alts) > 1 else ("keys", d, next(iter(alts))))
             for kk in frozenset.intersection(*alts) if alts else ():
                 a.add(("has", d, C(kk)), ("ok", ("sub", d, C(kk))))
-            b.add(("notkeysin", d, alts))
+            if keys_order_free(l) and all(list(v) == sorted(v) for v in vals):
+                b.add(("notkeysin", d, alts))
+            else:
+                # an order-sensitive comparison: a mismatch says nothing about the key *set*
+                b.add(("notin", l, r))
             _emit(outs, a, b, positive)
             return
         a, b = s.copy(), s.copy()
@@ -189,7 +202,12 @@ def _equality(w, e, s, l, r, positive, outs):
         a.add(("keys", d, ks))
         for kk in ks:
             a.add(("has", d, C(kk)), ("ok", ("sub", d, C(kk))))
-        b.add(("notkeys", d, ks))
+        if (keys_order_free(l) and list(lit_const_values(r)) == sorted(lit_const_values(r))) or len(ks) <= 1:
+            b.add(("notkeys", d, ks))
+        else:
+            # list(d) == [..] / tuple(d) == (..) depend on insertion order (and sorted(d) == [unsorted]
+            # never holds): a mismatch says nothing about the key *set*
+            b.add(("ne", l, r))
         _emit(outs, a, b, positive)
         return
     a.add(("eq", l, r))
